@@ -57,6 +57,61 @@ type descSpec struct {
 	mode     string // direct | fairmq | basic
 	hook     bool
 	limits   bool // template has a limits block
+	// inbound tcp channels defined in the workflow, not in the template: at the task role ("rtcp<i>", the first one with
+	// a global alias, which names the same endpoint a second time and needs no port of its own) and at the enclosing
+	// role ("atcp<i>"); roleDup: the task role additionally re-defines the template's channel tcp0 (one channel, one port)
+	roleTcp, ancTcp int
+	roleDup         bool
+}
+
+// tcpChannels lists the names of the inbound tcp channels the task ends up with (template, task role, enclosing role).
+func (d descSpec) tcpChannels() (out []string) {
+	for i := 0; i < d.tcp; i++ {
+		out = append(out, fmt.Sprintf("tcp%d", i))
+	}
+	if d.roleDup && d.tcp == 0 {
+		out = append(out, "tcp0")
+	}
+	for i := 0; i < d.roleTcp; i++ {
+		out = append(out, fmt.Sprintf("rtcp%d", i))
+	}
+	for i := 0; i < d.ancTcp; i++ {
+		out = append(out, fmt.Sprintf("atcp%d", i))
+	}
+	return
+}
+
+func bindYAML(indent string, names []string, globalFirst bool) string {
+	if len(names) == 0 {
+		return ""
+	}
+	s := indent + "bind:\n"
+	for i, n := range names {
+		s += fmt.Sprintf("%s  - name: %s\n%s    type: push\n", indent, n, indent)
+		if i == 0 && globalFirst {
+			s += fmt.Sprintf("%s    global: galias-%s\n", indent, n)
+		}
+	}
+	return s
+}
+
+func (d descSpec) roleBindYAML(indent string) string {
+	var names []string
+	for i := 0; i < d.roleTcp; i++ {
+		names = append(names, fmt.Sprintf("rtcp%d", i))
+	}
+	if d.roleDup {
+		names = append(names, "tcp0")
+	}
+	return bindYAML(indent, names, d.roleTcp > 0)
+}
+
+func (d descSpec) ancBindYAML(indent string) string {
+	var names []string
+	for i := 0; i < d.ancTcp; i++ {
+		names = append(names, fmt.Sprintf("atcp%d", i))
+	}
+	return bindYAML(indent, names, false)
 }
 
 func (d descSpec) class() string      { return "cls-" + d.name }
@@ -79,6 +134,9 @@ func (rs roundSpec) describe() string {
 	}
 	for _, d := range rs.descs {
 		fmt.Fprintf(&b, " | %s tmpl=%v role=%v encl=%v cpu=%v mem=%v static=%v tcp=%d ipc=%d mode=%s hook=%v limits=%v", d.name, d.classCts, d.roleCts, d.ancCts, d.cpu, d.mem, d.static, d.tcp, d.ipc, d.mode, d.hook, d.limits)
+		if d.roleTcp+d.ancTcp > 0 || d.roleDup {
+			fmt.Fprintf(&b, " role-tcp=%d encl-tcp=%d role-redefines-tcp0=%v", d.roleTcp, d.ancTcp, d.roleDup)
+		}
 	}
 	return b.String()
 }
@@ -97,8 +155,8 @@ func ctsYAML(indent string, c []kv) string {
 func (rs roundSpec) workflowYAML() string {
 	s := "name: root\n" + ctsYAML("", rs.rootCts) + "roles:\n"
 	for _, d := range rs.descs {
-		s += fmt.Sprintf("  - name: grp-%s\n%s    roles:\n      - name: %s\n%s        task:\n          load: %s\n",
-			d.name, ctsYAML("    ", d.ancCts), d.name, ctsYAML("        ", d.roleCts), d.class())
+		s += fmt.Sprintf("  - name: grp-%s\n%s%s    roles:\n      - name: %s\n%s%s        task:\n          load: %s\n",
+			d.name, ctsYAML("    ", d.ancCts), d.ancBindYAML("    "), d.name, ctsYAML("        ", d.roleCts), d.roleBindYAML("        "), d.class())
 		if d.hook {
 			s += "          trigger: before_START_ACTIVITY\n          timeout: 5s\n"
 		}
@@ -363,7 +421,7 @@ func runRound(rs roundSpec) (nCalls int) {
 		// (2) the offer covers what the template asks for
 		offered := rangesToSet(o.ports...)
 		static := rangesToSet(d.static...)
-		need := len(static) + d.tcp
+		need := len(static) + len(d.tcpChannels())
 		if d.controllable() {
 			need++
 		}
@@ -375,7 +433,7 @@ func runRound(rs roundSpec) (nCalls int) {
 		case !subset(static, offered):
 			vrt.Fail("launch-on-offer-not-covering-wants:static-ports", "task %s static %v, offer %s ports %v", cls, d.static, l.offer, o.ports)
 		case len(offered) < need:
-			vrt.Fail("launch-on-offer-not-covering-wants:port-count", "task %s needs %d ports (static %d, tcp channels %d, control %v), offer %s has %d", cls, need, len(static), d.tcp, d.controllable(), l.offer, len(offered))
+			vrt.Fail("launch-on-offer-not-covering-wants:port-count", "task %s needs %d ports (static %d, tcp channels %d, control %v), offer %s has %d", cls, need, len(static), len(d.tcpChannels()), d.controllable(), l.offer, len(offered))
 		}
 		// (3) ports handed to the task
 		var hs []handed
@@ -384,11 +442,17 @@ func runRound(rs roundSpec) (nCalls int) {
 		}
 		if t := taskByID[l.ti.TaskID.Value]; t != nil {
 			bm := t.GetLocalBindMap()
-			for i := 0; i < d.tcp; i++ {
-				ep, ok := bm[fmt.Sprintf("tcp%d", i)]
+			for _, chName := range d.tcpChannels() {
+				ep, ok := bm[chName]
 				te, isTcp := ep.(channel.TcpEndpoint)
 				if !ok || !isTcp {
-					vrt.Fail("tcp-channel-without-port", "task %s channel tcp%d endpoint %v", cls, i, ep)
+					where := "workflow-role"
+					for i := 0; i < d.tcp; i++ {
+						if chName == fmt.Sprintf("tcp%d", i) {
+							where = "template"
+						}
+					}
+					vrt.Fail("tcp-channel-without-port:defined-in-"+where, "task %s channel %s endpoint %v (bind map %v)", cls, chName, ep, bm)
 					continue
 				}
 				hs = append(hs, handed{te.Port, "dynamic", cls})
@@ -424,7 +488,7 @@ func runRound(rs roundSpec) (nCalls int) {
 				vrt.Fail("handed-port-not-requested:"+h.kind, "task %s %s port %d, requested %v", cls, h.kind, h.port, req)
 			}
 		}
-		extra := len(req) - len(static) - d.tcp
+		extra := len(req) - len(static) - len(d.tcpChannels())
 		distinct := portSet{}
 		for _, h := range hs {
 			distinct[h.port] = true
@@ -432,7 +496,7 @@ func runRound(rs roundSpec) (nCalls int) {
 		if len(distinct) != len(hs) {
 			// reported below as port-handed-twice-on-agent
 		} else if d.controllable() && extra != 1 || !d.controllable() && (extra < 0 || extra > 1) {
-			vrt.Fail("requested-port-count", "task %s requests %d ports: static %d + tcp channels %d + control (controllable=%v)", cls, len(req), len(static), d.tcp, d.controllable())
+			vrt.Fail("requested-port-count", "task %s requests %d ports: static %d + tcp channels %d + control (controllable=%v)", cls, len(req), len(static), len(d.tcpChannels()), d.controllable())
 		}
 		perAgent[o.host] = append(perAgent[o.host], hs...)
 		var hp []uint64
